@@ -87,6 +87,13 @@ def run(rep, tier, replay=None):
     prog = facts.load("std")
     table_rule(rep, prog)
     syndrome_rule(rep, prog, [14] if tier == "quick" else [7, 14, 16])
+    # the checksum window is the bytes actually consumed, however the source segments them
+    from . import c19
+    from .common import decode_paths
+    run_, oks, errs = decode_paths(prog, 14)
+    scheds = [("one-byte-reads", [1] * 64)] + ([("interrupted-before-every-read", ["interrupted", 14] * 40)] if tier == "thorough" else [])
+    c19.schedule_rule(rep, prog, oks, scheds, rule="R5", crc_only=True,
+                      text="the checksum window is exactly the first 7/14 bytes consumed, independent of how the byte source segments its reads: under a one-byte-per-read source every grammar path reports the same checksum (deviation from the reference syndrome) as slice decoding")
     rep.assume("the <=5-bit-error / <=24-bit-burst detection clause is a mathematical consequence of the generator polynomial and is not machine-checked")
     rep.assume("deku reader semantics and Vec/slice operations as summarised in analysis/ai")
     return rep.finish(
@@ -94,4 +101,4 @@ def run(rep, tier, replay=None):
         "interpreter re-verifies before using it). R2-R4: abstract interpretation of Frame::from_bytes with every frame bit an atom yields "
         "Frame.crc as 24 XOR-forms over the 56/112 frame bits on every grammar path; each form must equal the reference syndrome "
         "M(x) mod G. This decides the byte step, masks, loop range, tail XOR, the reconstruction of the checksum window across identifier "
-        "re-reads and the format-dependent length, for all frames at once.")
+        "re-reads and the format-dependent length, for all frames at once. R5: the same comparison through Frame::from_reader over a scripted one-byte-per-read source.")
